@@ -121,7 +121,8 @@ def run(ctx):
     for i in range(nin):
         level = rnd.choice([1, 1, 1, 2, 3]) if q else rnd.choice([1, 1, 2, 3, 5, 9])
         nblk = rnd.choice([3, 5, 8, 12]) if q else rnd.choice([3, 8, 20, 40])
-        fam = rnd.choice(['uniform', 'text', 'runs', 'runs4', 'runs4', 'concat', 'k4', 'boundary', 'tandem'])
+        # round-robin, so that every family (and, for the runs-of-four family, both modes) is present at every seed
+        fam = ['uniform', 'runs4', 'text', 'runs', 'concat', 'sprinkled4', 'k4', 'boundary', 'tandem'][i % 9]
         size = min(level * 100000 * nblk + rnd.randint(0, 99999), 3000000 if q else 12000000)
         data = gen.make(rnd, fam, size, level)
         vs = []
@@ -139,7 +140,10 @@ def run(ctx):
             else:
                 v['trace'] = True
             vs.append(v)
-        cs.append(dict(fam=fam, data=data, level=level, ultra=rnd.random() < 0.4, variants=vs))
+        ultra = rnd.random() < 0.4
+        if fam in ('runs4', 'sprinkled4'):
+            ultra = (i // 9) % 4 == 3
+        cs.append(dict(fam=fam, data=data, level=level, ultra=ultra, variants=vs))
     core.pmap(lambda c: one(ctx, lb, shim, c), cs, jobs=12)
     ctx.extra['distinct_schedule_signatures'] = len(set(k[3] for k in ctx.nontrivial))
     ctx.assumptions = ['schedule diversity is measured by trace signatures; unobserved schedules are not covered']
